@@ -21,19 +21,22 @@ def attrs(m):
     return [(k, repr(v)) for k, v in m.__dict__.items() if not k.startswith("_")]
 
 
-def judge(frame: bytes, mode: int, label: str, pbf=1):
+def judge(frame: bytes, mode: int, label: str, pbf=1, validate=1):
     if pbf == "both":
         st1, o1 = judge(frame, mode, label, 1)
         st0, o0 = judge(frame, mode, label, 0)
-        return ("viol" if (o1 or o0) else st1), o1 + [(k + "|pbf=0", d) for k, d in o0 if (k, d) not in o1 and k not in [x for x, _ in o1]]
+        stv, ov = judge(frame, mode, label, 1, 0)
+        out = o1 + [(k + "|pbf=0", d) for k, d in o0 if k not in [x for x, _ in o1]]
+        out += [(k + "|validate=0", d) for k, d in ov if k not in [x for x, _ in o1]]
+        return ("viol" if out else st1), out
     try:
-        a = UBXReader.parse(frame, msgmode=mode, parsebitfield=pbf)
+        a = UBXReader.parse(frame, msgmode=mode, parsebitfield=pbf, validate=validate)
     except Exception as e:  # noqa: BLE001
         return "true-mode-refuses", []
     plen = len(frame) - 8
     lc = "0" if plen == 0 else ("1-2" if plen <= 2 else "n")
     try:
-        b = UBXReader.parse(frame, msgmode=SETPOLL, parsebitfield=pbf)
+        b = UBXReader.parse(frame, msgmode=SETPOLL, parsebitfield=pbf, validate=validate)
     except Exception as e:  # noqa: BLE001
         return "viol", [(f"setpoll_refuses|{label}|len={lc}|{type(e).__name__}", f"frame={frame.hex()[:80]}: {e}")]
     out = []
@@ -180,7 +183,7 @@ def run_tier(tier, t0):
         PROP, tier, acc, t0, replay_case,
         rule=(
             "every routed SET and POLL definition x conforming payloads (counted groups 0..3 members, variable-by-size groups {0,1,2,3,5,16,63,64,65} members and the member counts that give payloads of 255..257, 511..513, 768 bytes, fills 00 / incrementing) generated by the "
-            "payload route, the keyword route and (for empty payloads) the no-keyword route; each frame parsed with its true mode and with SETPOLL, in both bitfield views. Same enumeration in both tiers. "
+            "payload route, the keyword route and (for empty payloads) the no-keyword route; each frame parsed with its true mode and with SETPOLL, in both bitfield views and under both validate settings. Same enumeration in both tiers. "
             "distinct_nontrivial = (mode, route, verdict) classes"
         ),
         assumptions=["conformance of a payload is decided by the reference layout, not by the parser", "stream ring: for every definition, its frames of payload length 0, 1, 2 and >= 3 (first generated of each class) interleaved with NMEA and RTCM3 frames, both orders, read by a SETPOLL reader in both bitfield views: each delivered UBX message must equal the static SETPOLL parse"],
